@@ -133,6 +133,8 @@ impl LogInnerManager {
                 last_term: pre_term,
                 ..Default::default()
             };
+            #[cfg(rnacos_verif)]
+            let header = crate::verif_hook::tune_log_header(header);
             let data_buf = vec![0u8; 256];
             let mut stream = Cursor::new(data_buf);
             stream.write_be(&header)?;
@@ -1294,6 +1296,8 @@ impl RaftLogManager {
                 }
                 //remove file
                 let path = Self::get_log_path(&self.base_path, &item.log_range);
+                #[cfg(rnacos_verif)]
+                crate::verif_hook::unlink_sync(&path);
                 std::fs::remove_file(path).ok();
                 i += 1;
             } else if split_off_index > item.log_range.split_off_index {
